@@ -139,7 +139,11 @@ func cmdSx(c *entity.Command, nm *Namer) Sx {
 	if c == nil {
 		return L()
 	}
-	return L(I(nm.Id(string(c.Name))), strIds(c.TargetTaskInsIDs, nm))
+	code, ok := map[string]int{entity.CommandNameRetry: 1, entity.CommandNameCancel: 2, entity.CommandNameContinue: 3}[string(c.Name)]
+	if !ok {
+		code = 100 + nm.Id(string(c.Name))
+	}
+	return L(I(code), strIds(c.TargetTaskInsIDs, nm))
 }
 
 func shareSx(s *entity.ShareData, nm *Namer) Sx {
